@@ -70,6 +70,9 @@ func (w *c15Sched) Schedule(ctx context.Context, offset uint64) {
 	payload := "?"
 	if p, err := w.log.Get(offset); err == nil && p != nil {
 		payload = string(p.Payload)
+		if payload == "" {
+			payload = "<empty>"
+		}
 	} else if err != nil {
 		payload = "GETERR:" + err.Error()
 	}
@@ -116,7 +119,7 @@ func c15Child(args []string) int {
 	}
 	for i := 0; i < appendBefore; i++ {
 		seq := end + uint64(i)
-		if err := log.Append(&packet.Publish{Header: &packet.Header{}, Topic: []byte("c15/t"), Payload: []byte(fmt.Sprintf("m%d", seq))}); err != nil {
+		if err := log.Append(&packet.Publish{Header: &packet.Header{}, Topic: []byte("c15/t"), Payload: c15Payload(uint64(seq))}); err != nil {
 			c15Logf(out, "X append: %v", err)
 			return 3
 		}
@@ -166,7 +169,7 @@ func c15Child(args []string) int {
 			defer close(appenderDone)
 			for i := 0; i < appendDuring; i++ {
 				seq := end + uint64(appendBefore) + uint64(i)
-				if err := log.Append(&packet.Publish{Header: &packet.Header{}, Topic: []byte("c15/t"), Payload: []byte(fmt.Sprintf("m%d", seq))}); err != nil {
+				if err := log.Append(&packet.Publish{Header: &packet.Header{}, Topic: []byte("c15/t"), Payload: c15Payload(uint64(seq))}); err != nil {
 					c15Logf(out, "X append: %v", err)
 					return
 				}
@@ -227,6 +230,15 @@ func (r c15Round) String() string {
 	default:
 		return fmt.Sprintf("stop-after-%d(+%d,+%d concurrently)", r.stopAfter, r.appendBefore, r.appendDuring)
 	}
+}
+
+// c15Payload is the payload of the message appended at offset o; every tenth message has a
+// zero-length payload (MQTT allows it; it is a message like any other).
+func c15Payload(o uint64) []byte {
+	if o%10 == 7 {
+		return nil
+	}
+	return []byte(fmt.Sprintf("m%d", o))
 }
 
 type c15Run struct {
@@ -356,7 +368,11 @@ func c15Scenario(c *fw.Ctx, idx int, rounds []c15Round) {
 			}
 		}
 		for o, p := range run.payload {
-			if want := fmt.Sprintf("m%d", o); p != want {
+			want := string(c15Payload(o))
+			if want == "" {
+				want = "<empty>"
+			}
+			if p != want {
 				c.Violation("wrong-payload", fmt.Sprintf("scenario %d %s: incarnation %d handed offset %d with payload %q, the message appended there is %q", idx, desc, ri, o, p, want), wit(map[string]interface{}{"run": ri}))
 				return
 			}
@@ -413,7 +429,7 @@ func c15Scenario(c *fw.Ctx, idx int, rounds []c15Round) {
 
 func runC15(c *fw.Ctx) {
 	c.Level = "fault_enumeration"
-	c.Rule = "each scenario = a log of 30 / 520 / 2100 uniquely numbered messages consumed by a chain of separate processes on one data directory; every incarnation but the last is ended either by SIGKILL at an exact point of Consume (hook H5: before the callback, after it, after persisting the offset, after the truncation check; plus inside the callback, from the recording writer) for a chosen offset - all four points x offsets around batch edges (9,10,11,20), segment rolls (499-501, 999-1001) and the truncation at 2000 (1999-2001) - or by context cancellation after N hand-overs, some with appends before/concurrently with consumption; the last incarnation runs to the end. Per-incarnation logs (written with one write(2) per line) give: offsets handed over, payload read at that offset, callback-returned marks. Oracle: within a run offsets are contiguous and carry the payload appended there; a run starts at c+1 (c = greatest offset whose hand-over completed earlier) or at c if the previous incarnation was killed (the message in flight), never earlier, never later; over all runs every appended offset is handed over. distinct = (log length, chain of end points); non-trivial = >=1 restart"
+	c.Rule = "each scenario = a log of 30 / 520 / 2100 uniquely numbered messages (every tenth with a zero-length payload) consumed by a chain of separate processes on one data directory; every incarnation but the last is ended either by SIGKILL at an exact point of Consume (hook H5: before the callback, after it, after persisting the offset, after the truncation check; plus inside the callback, from the recording writer) for a chosen offset - all four points x offsets around batch edges (9,10,11,20), segment rolls (499-501, 999-1001) and the truncation at 2000 (1999-2001) - or by context cancellation after N hand-overs, some with appends before/concurrently with consumption; the last incarnation runs to the end. Per-incarnation logs (written with one write(2) per line) give: offsets handed over, payload read at that offset, callback-returned marks. Oracle: within a run offsets are contiguous and carry the payload appended there; a run starts at c+1 (c = greatest offset whose hand-over completed earlier) or at c if the previous incarnation was killed (the message in flight), never earlier, never later; over all runs every appended offset is handed over. distinct = (log length, chain of end points); non-trivial = >=1 restart"
 	c.Assume("appends concurrent with consumption are only used in incarnations that end by cancellation, so that SIGKILL never interrupts the commit-log library in the middle of a write (that would test the library, not wasp)")
 	points := []string{"beforeCallback", "afterCallback", "afterPersist", "afterTruncate"}
 	allPoints := append([]string{"inCallback"}, points...)
